@@ -158,3 +158,4 @@ PARTIAL += [
     "OkCif / RectCif; that a store reached by API calls shows such a tree is proved for stores built by a parse "
     "(C03_store_inv_after_parse), there is no general `Store.Inv s.db -> OkCif (abs s.db)`.",
 ]
+# ---- independent review rA (notes/review/rA-review.md): CifModel.Props.ReviewRC03 is listed in group gX's LEAN_MODULES above ----
